@@ -20,7 +20,7 @@ def budget(ctx):
 def ties(ctx):
     a, b = budget(ctx)
     return [run_seq(ctx, 'core', a, model='core', corpus='CORE-SEQ'),
-            run_seq(ctx, 'core3', b, seed_offset=1),
+            run_seq(ctx, 'core3', b, seed_offset=1, model='core3'),
             run_seq(ctx, 'full', b, seed_offset=2, corpus='C10')]
 
 def search(ctx, reason):
